@@ -167,6 +167,8 @@ def run(ctx, chk):
         chk.error('no BTreeMap::get reached from run_code_block for PC in the switchable window (anchor lost)')
     if not inserts:
         chk.error('no BTreeMap::insert reached from run_code_block (anchor lost)')
+    # ---- rule 1, second half: the tag is an *injective* function of the mapped bank (two banks never share a tag)
+    tag_injective(ctx, chk, facts, file)
     # ---- rule 2
     model = bm.BusModel(facts)
     slice_paths = [p for p in model.fetch_paths() if p['status'] == 'ok' and p['hi'] <= 0x7fff]
@@ -358,3 +360,55 @@ def block_extent(ctx, chk, facts, prog):
                  % (fmt(worst[0])[:60], min(worst[1].hi, 0xffffffff)), 'src/cache/mod.rs', prog.fns[TCB]['line'])
     else:
         chk.ok('C03.5', 'extent:rom_low')
+
+
+def tag_injective(ctx, chk, facts, file):
+    """Core::run_code_block with MemoryAreas::get_rom_bank kept symbolic (B = the bank mapped now): the value stored as
+    the cache region's bank tag is t(B).  Two-copy comparison over canonical bit vectors: t(B1) == t(B2) => B1 == B2
+    for every bank number an image can have (0..511)."""
+    from ..bdd import BDD, BV, TermBV, Unsupported
+    from ..bvproof import subst
+    GRB = 'mem::MemoryAreas::get_rom_bank'
+    heavy = ['cache::CodeCache::call', HI_(), 'mem::MemoryAreas::run_clock_cycles', 'interpreter::run_code_block',
+             'cache::CodeCache::translate_code_block', 'cache::CodeCache::get_address_for_ip', GRB]
+    ip = absint.Interp(facts, opaque=[h for h in heavy if h in facts['functions']], trust_asserts=('overflow', 'bounds', 'slice_index'),
+                       loop_mode='havoc')
+    st = ip.new_state()
+    core = ip.arg_object(st, 'core')
+    st.env.assume(IPREG, AV(32, 0x4000, 0x7fff))
+    found = 0
+    bad = None
+    for r in ip.run(RCB, [core], st):
+        if r.status not in ('ok', 'loopback'):
+            continue
+        banks = [e[3] for e in r.state.events if e[0] == 'call' and e[1] == GRB]
+        for e in r.state.events:
+            if e[0] == 'store' and e[2] and e[2][-1][1] == 'current_bank' and T.is_int(e[3]):
+                deps = [b for b in banks if b in syms_of(e[3])]
+                if not deps:
+                    continue            # liveness is the first half of the rule
+                B = deps[-1]
+                found += 1
+                try:
+                    m = BDD()
+                    conv = TermBV(m)
+                    B2 = S(B[1], B[2] + "'", B[3])
+                    t1, t2 = conv(e[3]), conv(subst(e[3], {B: B2}))
+                    b1, b2 = conv(B), conv(B2)
+                    lim = BV.const(m, len(b1), 512)
+                    dom = m.AND(b1.ult(lim), b2.ult(lim))
+                    clash = m.AND(dom, m.AND(m.NOT(t1.diff(t2)), b1.diff(b2)))
+                    if clash != 0:
+                        w = m.witness(clash)
+                        bad = ('banks %d and %d are given the same cache tag (%s): a block translated while one of them was '
+                               'mapped is executed when the other one is' % (w.get(B[2], 0), w.get(B2[2], 0), fmt(e[3])[:80]))
+                except Unsupported as ex:
+                    chk.error('C03.1 tag injectivity: outside the bit-vector fragment: %s' % ex.why)
+                    return
+    if bad:
+        chk.fail('C03.1', 'tag:injective', bad, 'src/cache/mod.rs', None)
+    elif not found:
+        chk.fail('C03.1', 'tag:injective', 'no store of the cache bank tag derived from the bank mapped now was found in '
+                 'Core::run_code_block', file, None)
+    else:
+        chk.ok('C03.1', 'tag:injective', sample={'tag stores examined': found, 'domain': 'bank numbers 0..511'})
